@@ -311,6 +311,38 @@ class Session:
             except BaseException as e:      # noqa: B902
                 self.last_rt = (ser(v), locals().get('printed'), type(e).__name__)
                 return 'ok DIFF', True
+        if name == 'wawk':
+            # what wawk/wawk.py run() does, in process: parse, emit, (-o text), load with keep_signals, eval every form
+            src = cmd[1]
+            from wawk.parser import parse_wawk
+            from wawk.ast_defs import AST
+            from wal.util import wal_str
+            AST.find_variables.__defaults__[0].clear()      # one program per process in real use
+            try:
+                with contextlib.redirect_stdout(io.StringIO()):
+                    parsed = parse_wawk(src)
+                    stm = '[ ' + ''.join('[ %s %s ] ' % (ser(list(s.condition)), ser(s.action)) for s in parsed) + ']'
+                    ast_ = AST(parsed, 't.vcd')
+                    exprs, symbols = ast_.emit()
+                    forms = ser(exprs)
+                    otext = ''.join(wal_str(stmt) + '\n\n' for stmt in exprs)
+                    back = read_wal_sexprs(otext)
+                    same = 'o-same' if ser(list(back)).replace('(', '[').replace(')', ']') == forms.replace('(', '[').replace(')', ']') else 'o-DIFF'
+            except BaseException as e:      # noqa: B902
+                self.model_ok = False
+                return 'err PARSE-%s' % type(e).__name__, False
+            self.model_cmds.append('wawk S%s %s' % (hx('t.vcd'), stm))
+            w2 = fresh_wal()
+            self.w = w2
+
+            def go():
+                w2.load('t.vcd', 'WAWK_TRACE', keep_signals=symbols)
+                for e in exprs:
+                    w2.eval(e)
+            r, ok, _ = self.capture(go)
+            if not ok:
+                return r, False
+            return 'ok S%s %s %s' % (hx(''.join(self.out)), same, forms), True
         if name == 'idem':
             # passes applied once vs twice to every form, both versions evaluated on copies of this interpreter
             import copy
